@@ -23,6 +23,7 @@ var c02Specs = []famSpec{
 	{Family: "rect-soup", Pool: 60000, PoolQ: 3000},
 	{Family: "rect-cavity", Pool: 60000, PoolQ: 3000},
 	{Family: "touching", Pool: 60000, PoolQ: 3000},
+	{Family: "stacked", FreshQ: 1500, FreshT: 30000},
 	{Family: "nested-small", Pool: 30000, PoolQ: 1500},
 	{Family: "nested", FreshQ: 1500, FreshT: 50000},
 	{Family: "degenerate-wide", FreshQ: 1500, FreshT: 50000},
@@ -79,10 +80,7 @@ func c02Run(ctx *run.Ctx, id run.CaseID) {
 			if !ctx.Guard(digest, sub, in, func() {
 				c := clip.NewClipper64()
 				c.VerifSetOptions(pc, rev)
-				c.AddPaths(subj, clip.Subject, false)
-				if clp != nil {
-					c.AddPaths(clp, clip.Clip, false)
-				}
+				addClosed(c, subj, clp)
 				sol = make(Paths, 0)
 				ok = c.Execute(ct, fr, &sol)
 			}) {
@@ -149,6 +147,28 @@ func c02Run(ctx *run.Ctx, id run.CaseID) {
 				}
 			}
 		}
+	}
+	// a solution the caller still holds stays canonical while the engine that produced it goes on working:
+	// two executions on one engine into two different variables, then the first result is examined again
+	{
+		ct1, ct2 := clipTypes[r.Intn(4)], clipTypes[r.Intn(4)]
+		fr := fillRules[r.Intn(4)]
+		sub := fmt.Sprintf("kept/%s-then-%s/%s", ctName(ct1), ctName(ct2), frName(fr))
+		ctx.Guard(digest, sub, in, func() {
+			c := clip.NewClipper64()
+			addClosed(c, subj, clp)
+			first, second := Paths{}, Paths{}
+			c.Execute(ct1, fr, &first)
+			before := run.Digest(first)
+			c.Execute(ct2, fr, &second)
+			t := clip.NewPolyTree64()
+			od := clip.PathsD{}
+			c.ExecutePolyTree64(ct1, fr, t, &od)
+			ctx.Eval(3)
+			if run.Digest(first) != before {
+				ctx.Fail(digest, sub, "", fmt.Sprintf("the solution of the first execution changed while the engine executed again (structural defects now: %q): %v", structuralDefects(first), first), in)
+			}
+		})
 	}
 	if nontrivial {
 		ctx.Nontrivial(digest)
